@@ -305,6 +305,23 @@ class _InstanceLevelDispatch(RefCollection[_ET], Collection[_ListenerFnType]):
         return self
 
 
+_instance_collection_lock = threading.RLock()
+
+
+def _establish_empty_listener(
+    obj: _Dispatch[_ET], ls: _EmptyListener[_ET]
+) -> _InstanceLevelDispatch[_ET]:
+    """Assign an _EmptyListener to a dispatch on first access, unless
+    another thread established a collection in the meantime."""
+
+    with _instance_collection_lock:
+        try:
+            return object.__getattribute__(obj, ls.name)  # type: ignore
+        except AttributeError:
+            setattr(obj, ls.name, ls)
+            return ls
+
+
 class _EmptyListener(_InstanceLevelDispatch[_ET]):
     """Serves as a proxy interface to the events
     served by a _ClsLevelDispatch, when there are no
@@ -344,9 +361,11 @@ class _EmptyListener(_InstanceLevelDispatch[_ET]):
         obj = cast("_Dispatch[_ET]", obj)
 
         assert obj._instance_cls is not None
-        existing = getattr(obj, self.name)
 
-        with util.mini_gil:
+        # looking at what's established on the dispatch and replacing it
+        # is one step with regards to other threads doing the same
+        with _instance_collection_lock:
+            existing = getattr(obj, self.name)
             if existing is self or isinstance(existing, _JoinedListener):
                 result = _ListenerCollection(self.parent, obj._instance_cls)
             else:
